@@ -45,9 +45,10 @@ type Store struct {
 	NApplied int // write operations that took effect (commits)
 	ClockFn  func() uint64
 	TSOFault func() bool // the timestamp oracle fails when this returns true
-	// IterFault is asked before every iterator step (with the step's ordinal): true = the step fails
-	IterFault func(n int) bool
-	NNext     int
+	// IterFault is asked before every iterator step with the iterator's start key and the ordinal
+	// of the step within that iterator (both independent of how concurrent scans interleave):
+	// true = the step fails
+	IterFault func(start []byte, step int) bool
 	NIters    int
 	Clock     uint64
 	ErrOther  error              // the definite error injected by FaultErr
@@ -202,18 +203,20 @@ func (s *Store) Get(ctx context.Context, key []byte) ([]byte, error) {
 }
 
 type iter struct {
-	ents []Ent
-	pos  int
-	s    *Store
+	ents  []Ent
+	pos   int
+	s     *Store
+	start []byte
+	n     int // steps taken so far
 }
 
 func (it *iter) Key() []byte { return it.ents[it.pos].Key }
 func (it *iter) Val() []byte { return it.ents[it.pos].Val }
 func (it *iter) Next(ctx context.Context) error {
 	if it.s != nil && it.s.IterFault != nil {
-		n := it.s.NNext
-		it.s.NNext++
-		if it.s.IterFault(n) {
+		n := it.n
+		it.n++
+		if it.s.IterFault(it.start, n) {
 			return ErrInjected // a transient engine fault in the middle of a scan
 		}
 	}
@@ -232,7 +235,7 @@ func (s *Store) Iter(ctx context.Context, start []byte, end []byte, timestamp ui
 	s.yield("iter")
 	defer s.yield("iter-done")
 	s.NIters++
-	it := &iter{pos: -1, s: s}
+	it := &iter{pos: -1, s: s, start: cp(start)}
 	ents := s.at(timestamp)
 	if bytes.Compare(start, end) <= 0 {
 		for i := range ents {
